@@ -68,7 +68,7 @@ void *memset(void *dst, int c, size_t n) {
  * --------------------------------------------------------------------------------------------------- */
 #define CQV_SZ ((size_t)1 << 40)
 #define M255(x) ((((size_t)(x)) << 8) - (size_t)(x))
-#define BOUND_FACTS(n, B) ((B) >= (n) + 16 && (B) <= (n) + ((n) >> 7) + 16 && M255((B) - (n) - 16) <= (n) && M255((B) - (n) - 15) > (n))
+#define BOUND_FACTS(n, B) ((B) == (n) + (n) / 255 + 16) /* the real carquet_lz4_compress_bound is inlined in the compressor jobs */
 #define SIZE_INV(o, a) ((o) <= (a) || M255((o) - (a)) <= (a))
 /* e extension bytes (0 when v - c + 15 < 15) encode v: e-1 bytes of 255 and a last byte r < 255 */
 #define EXT_EXACT(v, c, e, r) (((v) < (c) && (e) == 0) || ((v) >= (c) && (e) >= 1 && (e) <= (v) && (r) < 255 && M255((e) - 1) + (r) == (v) - (c)))
@@ -76,7 +76,7 @@ void *memset(void *dst, int c, size_t n) {
 /* space for one sequence: T = output offset of the token, a = anchor offset, l literals, m match bytes */
 #define LEM_SPACE_REQ(n, cap, B, a, l, T, m, max_out) \
   ((n) <= CQV_SZ && (cap) <= CQV_SZ && BOUND_FACTS(n, B) && (cap) >= (B) && (a) <= (n) && (l) <= (n) && (m) <= (n) && (m) >= 4 && \
-   (a) + (l) + (m) + 12 <= (n) && SIZE_INV(T, a) && (max_out) == 1 + ((l) / 255) + (l) + 2 + ((m) / 255))
+   (a) + (l) + (m) + 12 <= (n) && (T) <= 2 * CQV_SZ && SIZE_INV(T, a) && (max_out) == 1 + ((l) / 255) + (l) + 2 + ((m) / 255))
 #define LEM_SPACE_ENS(n, cap, B, a, l, T, m, max_out) \
   ((T) + (max_out) + 2 + (m) <= (cap) && (T) + (l) + 8 <= (cap) && (T) + (max_out) <= (cap))
 void cqv_lemma_space(size_t n, size_t cap, size_t B, size_t a, size_t l, size_t T, size_t m, size_t max_out)
@@ -107,7 +107,7 @@ __CPROVER_ensures(LEM_INV_ENS(a, l, m, T, e1, r1, e2, r2, o2))
 
 /* space for the last literal run: o = output offset, q = the amount the code checks for */
 #define LEM_LAST_REQ(n, cap, B, a, o, q) \
-  ((n) <= CQV_SZ && (cap) <= CQV_SZ && BOUND_FACTS(n, B) && (cap) >= (B) && (a) + 12 <= (n) && SIZE_INV(o, a) && \
+  ((n) <= CQV_SZ && (cap) <= CQV_SZ && BOUND_FACTS(n, B) && (cap) >= (B) && (a) <= (n) && (a) + 12 <= (n) && (o) <= 2 * CQV_SZ && SIZE_INV(o, a) && \
    (q) == 1 + (((n) - (a)) / 255) + ((n) - (a)))
 #define LEM_LAST_ENS(n, cap, B, a, o, q) ((o) + (q) + 1 <= (cap) && (o) + (q) <= (cap))
 void cqv_lemma_last(size_t n, size_t cap, size_t B, size_t a, size_t o, size_t q)
@@ -118,23 +118,13 @@ __CPROVER_ensures(LEM_LAST_ENS(n, cap, B, a, o, q))
 
 /* final size: of = o + 1 + e + (n - a)  is at most  n + n/255 + 16 */
 #define LEM_POST_REQ(n, a, o, e, r4, of) \
-  ((n) <= CQV_SZ && (a) + 12 <= (n) && (o) <= 2 * CQV_SZ && SIZE_INV(o, a) && EXT_EXACT((n) - (a), 15, e, r4) && (of) == (o) + 1 + (e) + ((n) - (a)))
+  ((n) <= CQV_SZ && (a) <= (n) && (a) + 12 <= (n) && (o) <= 2 * CQV_SZ && SIZE_INV(o, a) && EXT_EXACT((n) - (a), 15, e, r4) && (of) == (o) + 1 + (e) + ((n) - (a)))
 #define LEM_POST_ENS(n, a, o, e, r4, of) ((of) >= 1 && ((of) <= (n) + 16 || M255((of) - (n) - 16) <= (n)))
 void cqv_lemma_post(size_t n, size_t a, size_t o, size_t e, size_t r4, size_t of)
 __CPROVER_requires(LEM_POST_REQ(n, a, o, e, r4, of))
 __CPROVER_assigns()
 __CPROVER_ensures(LEM_POST_ENS(n, a, o, e, r4, of))
 {}
-
-/* a capacity of at least n + n/255 + 16 (division-free form used in the contract) is >= the code's bound B */
-#define LEM_BOUND_REQ(n, cap, B) ((n) <= CQV_SZ && (cap) <= CQV_SZ && BOUND_FACTS(n, B))
-#define LEM_BOUND_ENS(n, cap, B) (((cap) >= (n) + 16 && M255((cap) - (n) - 15) > (n)) ==> (cap) >= (B))
-void cqv_lemma_bound(size_t n, size_t cap, size_t B)
-__CPROVER_requires(LEM_BOUND_REQ(n, cap, B))
-__CPROVER_assigns()
-__CPROVER_ensures(LEM_BOUND_ENS(n, cap, B))
-{}
-#define CQV_LZ4_BOUND cqv_lemma_bound(src_size, dst_capacity, max_output);
 
 /* lemma calls and ghost bookkeeping at the overlay hooks of carquet_lz4_compress */
 #define CQV_LZ4_SPACE \
@@ -244,12 +234,6 @@ void h_lemma_last(void) {
   __CPROVER_assume(LEM_LAST_REQ(n, cap, B, a, o, q));
   CQV_CANARY("lemma last: requires satisfiable");
   __CPROVER_assert(LEM_LAST_ENS(n, cap, B, a, o, q), "lemma last: the last literal run fits below a bound-sized capacity");
-}
-void h_lemma_bound(void) {
-  size_t n = nondet_size_t(), cap = nondet_size_t(), B = nondet_size_t();
-  __CPROVER_assume(LEM_BOUND_REQ(n, cap, B));
-  CQV_CANARY("lemma bound: requires satisfiable");
-  __CPROVER_assert(LEM_BOUND_ENS(n, cap, B), "lemma bound: advertised capacity >= code bound");
 }
 void h_lemma_post(void) {
   size_t n = nondet_size_t(), a = nondet_size_t(), o = nondet_size_t(), e = nondet_size_t(), r4 = nondet_size_t(), of = nondet_size_t();
